@@ -187,6 +187,33 @@ func zzC01_tcp_roundtrip() {
 // same round trip, every code including the signalling codes 7.01-7.05 (which switch the option registry)
 func zzC01_tcp_signals() { zzC01_tcp_roundtrip() }
 
+// the length classes of the stream header from the encoder's side: messages whose options+payload length sits on
+// and next to every class border (12/13, 268/269, 65804/65805) are framed so that the decoder gets them back
+func zzC01_tcp_borders() {
+	total := []int{12, 13, 14, 268, 269, 270, 65804, 65805, 65806}[symChoose("length", symParam("borders", 6))]
+	// no options: the length field counts the payload marker and the payload
+	p := make([]byte, total-1)
+	if len(p) > 0 {
+		p[0] = symU8("first")
+		p[len(p)-1] = symU8("last")
+	}
+	m := message.Message{Code: 0x45, Token: []byte{0xA1}, Payload: p}
+	c := DefaultCoder
+	size, err := c.Size(m)
+	symAssert(err == nil, "Size succeeds")
+	buf := make([]byte, size)
+	n, err := c.Encode(m, buf)
+	symAssert(err == nil && n == size, "Encode writes exactly Size bytes")
+	var h MessageHeader
+	_, herr := c.DecodeHeader(buf, &h)
+	symAssert(herr == nil && int(h.MessageLength) == size, "the header declares the length of the whole frame")
+	var out message.Message
+	out.Options = make(message.Options, 0, 2)
+	used, derr := c.Decode(buf, &out)
+	symAssert(derr == nil && used == size && out.Code == m.Code && bytes.Equal(out.Token, m.Token) && bytes.Equal(out.Payload, p), "a message on a length-class border round-trips")
+	symCover("border")
+}
+
 func zzC01_tcp_short() {
 	z := zzBuild()
 	c := DefaultCoder
